@@ -1,0 +1,16 @@
+//! Verification hooks for the multiplexer (cargo feature `verif`). No logic, only wrappers.
+#![allow(missing_docs, clippy::missing_docs_in_private_items)]
+use super::handshake::Handshake;
+
+/// The multiplexer handshake message (crate-visible wrapper of the module-private type).
+pub(crate) struct HandshakeMsg(Handshake);
+
+impl zksync_protobuf::ProtoFmt for HandshakeMsg {
+    type Proto = crate::proto::mux::Handshake;
+    fn read(r: &Self::Proto) -> anyhow::Result<Self> {
+        Ok(Self(Handshake::read(r)?))
+    }
+    fn build(&self) -> Self::Proto {
+        self.0.build()
+    }
+}
